@@ -387,3 +387,24 @@ Proof.
   eexists. exists (j_headers ex_entity), ex_ct.
   split; [vm_compute; reflexivity|]. split; [vm_compute; discriminate|]. split; vm_compute; reflexivity.
 Qed.
+
+(* middlewares (Provider.Acquire: BuildRequest, then UpdateRequest of each configured middleware): header/date
+   adds one value under its canonical header name after the values already there and leaves the rest of the
+   request alone (the value itself, the clock reading in the configured location, is checked by the harness
+   against the wall clock around the Acquire call); without middlewares Acquire is BuildRequest *)
+Theorem C07_mw_date_adds :
+  forall i name r,
+  exists r', mw_update i (MwDate name) r = Some r' /\
+    mr_method r' = mr_method r /\ mr_url r' = mr_url r /\ mr_host r' = mr_host r /\
+    mr_body r' = mr_body r /\ mr_tag r' = mr_tag r /\
+    forall k, mget k (mr_headers r') =
+      let nm := canon_key (if is_nil name then DATE else name) in
+      if beq k nm
+      then Some (match mget nm (mr_headers r) with Some vs => vs ++ [DATE_STAMP] | None => [DATE_STAMP] end)
+      else mget k (mr_headers r).
+Proof. exact mw_date_adds. Qed.
+Print Assumptions C07_mw_date_adds.
+
+Theorem C07_mw_none : forall i b, acquire_m [] i b = b.
+Proof. exact acquire_no_mw. Qed.
+Print Assumptions C07_mw_none.
